@@ -53,6 +53,7 @@ type c16World struct {
 	reimports   int  // how often issuer i2 was deleted and imported again (new issuer id each time)
 	colliders   int  // imported foreign CAs whose own serial equals that of a leaf issued here
 	keyless     *c16Cert // a subordinate CA certificate signed by i2 and imported WITHOUT its key
+	subCAs      map[string]*c16Cert // keyed intermediates created inside the mount: int1 (signed by i2), int2 (signed by int1)
 	deltaRotatedSinceRevoke bool
 	rotatedSinceRevoke bool
 	lastCRLNum  map[string]*big.Int
@@ -301,9 +302,14 @@ func (w *c16World) check() (string, string) {
 				}
 			}
 		}
-		crlCerts := w.certs
+		crlCerts := append([]*c16Cert{}, w.certs...)
 		if w.keyless != nil {
-			crlCerts = append(append([]*c16Cert{}, w.certs...), w.keyless)
+			crlCerts = append(crlCerts, w.keyless)
+		}
+		for _, nm := range []string{"int1", "int2"} {
+			if sc := w.subCAs[nm]; sc != nil {
+				crlCerts = append(crlCerts, sc)
+			}
 		}
 		for _, c := range crlCerts {
 			if c.issuer != n || !c.revoked {
@@ -356,7 +362,7 @@ type c16Op struct {
 func (o c16Op) String() string { return fmt.Sprintf("%s(%d)", o.Kind, o.Arg) }
 
 func c16Alphabet(ncerts int) []c16Op {
-	out := []c16Op{{"issue", 1}, {"issue", 2}, {"rotate", 0}, {"tidy", 0}, {"auto-rebuild", 1}, {"auto-rebuild", 0}, {"delete-issuer2", 0}, {"restart", 0}, {"reimport-issuer2", 0}, {"delta", 1}, {"delta", 0}, {"rotate-delta", 0}, {"import-colliding-ca", 0}, {"import-keyless-sub", 0}, {"revoke-keyless-sub", 0}}
+	out := []c16Op{{"issue", 1}, {"issue", 2}, {"rotate", 0}, {"tidy", 0}, {"auto-rebuild", 1}, {"auto-rebuild", 0}, {"delete-issuer2", 0}, {"restart", 0}, {"reimport-issuer2", 0}, {"delta", 1}, {"delta", 0}, {"rotate-delta", 0}, {"import-colliding-ca", 0}, {"import-keyless-sub", 0}, {"revoke-keyless-sub", 0}, {"add-int", 1}, {"add-int", 2}, {"revoke-int", 1}, {"revoke-int", 2}}
 	for i := 0; i < ncerts; i++ {
 		out = append(out, c16Op{"revoke", i})
 	}
@@ -508,6 +514,79 @@ func (w *c16World) apply(t *testing.T, op c16Op) (string, string) {
 			return "rotate-failed", txt
 		}
 		w.rotatedSinceRevoke = true
+	case "add-int":
+		// a keyed intermediate CA created inside the mount: int1 is signed by issuer i2, int2 by
+		// int1 (generate CSR -> sign-intermediate -> import the certificate next to its key)
+		name, parent := fmt.Sprintf("int%d", op.Arg), "i2"
+		if op.Arg == 2 {
+			parent = "int1"
+		}
+		if w.subCAs == nil {
+			w.subCAs = map[string]*c16Cert{}
+		}
+		if op.Arg == 2 && w.subCAs["int1"] == nil && !w.issuerGone["i2"] {
+			// composite: the chain i2 -> int1 -> int2 in one step (keeps "revoke both" within the depth bound)
+			if sig, msg := w.apply(t, c16Op{"add-int", 1}); sig != "" {
+				return sig, msg
+			}
+		}
+		if w.subCAs[name] != nil || w.issuerGone[parent] || (op.Arg == 2 && (w.subCAs["int1"] == nil || w.subCAs["int1"].revoked)) {
+			break
+		}
+		r1, e1 := w.s.Req(w.s.Root, logical.UpdateOperation, "pki/issuers/generate/intermediate/internal", map[string]interface{}{"common_name": "intermediate " + name, "key_type": "ec", "key_bits": 256})
+		if !OK(r1, e1) || r1 == nil {
+			return "intermediate-failed", "generating an intermediate CSR: " + ErrText(r1, e1)
+		}
+		r2, e2 := w.s.Req(w.s.Root, logical.UpdateOperation, "pki/issuer/"+parent+"/sign-intermediate", map[string]interface{}{"csr": r1.Data["csr"], "common_name": "intermediate " + name, "ttl": "200h"})
+		if !OK(r2, e2) || r2 == nil {
+			return "intermediate-failed", "signing the intermediate with " + parent + ": " + ErrText(r2, e2)
+		}
+		certPEM := fmt.Sprint(r2.Data["certificate"])
+		r3, e3 := w.s.Req(w.s.Root, logical.UpdateOperation, "pki/issuers/import/cert", map[string]interface{}{"pem_bundle": certPEM})
+		if !OK(r3, e3) || r3 == nil {
+			return "intermediate-failed", "importing the signed intermediate: " + ErrText(r3, e3)
+		}
+		var id string
+		switch v := r3.Data["imported_issuers"].(type) {
+		case []string:
+			if len(v) > 0 {
+				id = v[0]
+			}
+		case []interface{}:
+			if len(v) > 0 {
+				id = fmt.Sprint(v[0])
+			}
+		}
+		if id == "" {
+			t.Fatalf("harness: import of the intermediate reported no new issuer: %v", r3.Data)
+		}
+		if r4, e4 := w.s.Req(w.s.Root, logical.UpdateOperation, "pki/issuer/"+id, map[string]interface{}{"issuer_name": name}); !OK(r4, e4) {
+			return "rename-issuer-failed", ErrText(r4, e4)
+		}
+		c, perr := parseCertPEM(certPEM)
+		if perr != nil {
+			t.Fatalf("harness: %v", perr)
+		}
+		w.subCAs[name] = &c16Cert{serial: fmt.Sprint(r2.Data["serial_number"]), issuer: parent, cert: c}
+		w.issuers[name] = c
+	case "revoke-int":
+		name := fmt.Sprintf("int%d", op.Arg)
+		sc := w.subCAs[name]
+		if sc == nil {
+			break
+		}
+		resp, err := w.s.Req(w.s.Root, logical.UpdateOperation, "pki/issuer/"+name+"/revoke", nil)
+		if !OK(resp, err) {
+			if sc.revoked {
+				break
+			}
+			return "revoke-failed", "issuer/" + name + "/revoke failed: " + ErrText(resp, err)
+		}
+		if !sc.revoked {
+			sc.revoked = true
+			w.rotatedSinceRevoke = false
+			w.deltaRotatedSinceRevoke = false
+		}
 	case "import-keyless-sub":
 		// a subordinate CA certificate signed by issuer i2 (whose key the harness holds) is
 		// imported as a further issuer WITHOUT its private key (the key lives elsewhere)
@@ -576,7 +655,7 @@ func (w *c16World) canon() string {
 		parts = append(parts, fmt.Sprintf("%s:%v", c.issuer, c.revoked))
 	}
 	sort.Strings(parts)
-	return fmt.Sprintf("%v auto=%v rot=%v gone=%v delta=%v drot=%v reimports=%d", parts, w.autoRebuild, w.rotatedSinceRevoke, w.issuerGone["i2"], w.delta, w.deltaRotatedSinceRevoke, w.reimports) + fmt.Sprintf(" colliders=%d", w.colliders) + fmt.Sprintf(" keyless=%v/%v", w.keyless != nil, w.keyless != nil && w.keyless.revoked)
+	return fmt.Sprintf("%v auto=%v rot=%v gone=%v delta=%v drot=%v reimports=%d", parts, w.autoRebuild, w.rotatedSinceRevoke, w.issuerGone["i2"], w.delta, w.deltaRotatedSinceRevoke, w.reimports) + fmt.Sprintf(" colliders=%d", w.colliders) + fmt.Sprintf(" keyless=%v/%v", w.keyless != nil, w.keyless != nil && w.keyless.revoked) + fmt.Sprintf(" int1=%v/%v int2=%v/%v", w.subCAs["int1"] != nil, w.subCAs["int1"] != nil && w.subCAs["int1"].revoked, w.subCAs["int2"] != nil, w.subCAs["int2"] != nil && w.subCAs["int2"].revoked)
 }
 
 // c16KeylessSub builds a subordinate CA certificate signed with issuer i2's key (from the
